@@ -354,7 +354,7 @@ def mentions_hash(f):
 def C08_defaults(H, hf32):
     hvec4 = None
     return {'g0': hf32, 'g1': hf32, 'g2': hf32, 'S1.m': hf32, 'S2.m': hf32, 'S3.m': hf32, 'S3.m2': hf32, 'e0.arg': H['S0'], 'e1.arg': H['S0'],
-            'e0.res': -1, 'e1.res': -1}
+            'e0.arg2': H['P'], 'e1.arg2': H['P'], 'e0.res': -1, 'e1.res': -1}
 
 
 def native_hash(ctx, src, opts):
